@@ -1,7 +1,9 @@
+mod codec_ops;
 mod ops;
 mod proto;
 mod tape;
 mod toy;
+mod wrapped;
 
 use std::io::{BufRead, Write};
 
